@@ -396,6 +396,7 @@ def main():
     m = merge_stats(stats)
     ck.coverage.update(states=m['states'], transitions=m['transitions'] + cover['kfault-reexecutions'],
                        max_depth=m['max_depth'], traces_validated_against_impl=m['replays_validated'],
+                       traces_replayed_with_the_event_loop_never_left=m.get('continuous_validated', 0),
                        abstraction_checks=m['abstraction_checks'], caps_hit=m['caps_hit'], exhaustive=m['completed'],
                        kernel_fault_reexecutions=cover['kfault-reexecutions'],
                        oracle_applicability=dict(sorted(cover.items())), per_scenario=stats, samples=samples,
